@@ -1,8 +1,8 @@
-CONSTANTS N = 14  K = 13  BigK = {36, 601, 100003, 7000001}  MaxLevel = 2
+CONSTANTS N = 14  K = 13  BigK = {36, 601, 100003, 7000001} AllKz = FALSE  AllSp = FALSE  MaxLevel = 2
 ACTION_CONSTRAINT Emit
 INVARIANT EmitState
 INIT Init
-NEXT Next
+NEXT NextE
 CONSTRAINT Bound
 VIEW View
 INVARIANT TypeOK
